@@ -65,7 +65,7 @@ func zzDposFields(s *StateKeyFrame) zzFields {
 	for _, field := range []string{"NodeOwnerKeys", "CurrentCRNodeOwnerKeys", "NextCRNodeOwnerKeys", "PendingProducers", "ActivityProducers",
 		"InactiveProducers", "CanceledProducers", "IllegalProducers", "PendingCanceledProducers", "DposV2EffectedProducers", "Votes",
 		"DposV2VoteRights", "UsedDposVotes", "UsedDposV2Votes", "DepositOutputs", "DPoSV2RewardInfo", "DposV2RewardClaimingInfo",
-		"DposV2RewardClaimedInfo", "Nicknames", "ProducerDepositMap", "WithdrawableTxInfo", "ClaimingRewardAddr", "VotesWithdrawableTxInfo", "scalars"} {
+		"DposV2RewardClaimedInfo", "Nicknames", "ProducerDepositMap", "WithdrawableTxInfo", "ClaimingRewardAddr", "VotesWithdrawableTxInfo", "SpecialTxHashes", "scalars"} {
 		f[field] = map[string][]byte{}
 	}
 	for k, v := range s.NodeOwnerKeys {
@@ -133,6 +133,9 @@ func zzDposFields(s *StateKeyFrame) zzFields {
 	}
 	for k := range s.ProducerDepositMap {
 		put("ProducerDepositMap", string(k[:]), []byte{1})
+	}
+	for k := range s.SpecialTxHashes {
+		put("SpecialTxHashes", string(k[:]), []byte{1})
 	}
 	for k, v := range s.WithdrawableTxInfo {
 		put("WithdrawableTxInfo", string(k[:]), append(append([]byte{}, v.Recipient[:]...), zzAmt(v.Amount)...))
@@ -511,5 +514,39 @@ func ZZ_C21_modes() {
 		tx = &zzStTx{typ: common2.CRCouncilMemberClaimNode, ver: ver, id: common.Uint256{0x21, 0x34},
 			pld: &payload.CRCouncilMemberClaimNode{NodePublicKey: zzDposKey(3), CRCouncilCommitteeDID: did}}
 	}
+	zzDposApplyAndRollback(s, []interfaces.Transaction{tx})
+}
+
+func (t *zzStTx) GetSpecialTxHash() (common.Uint256, error) { return t.id, nil }
+
+// ZZ_C21_illegal: an illegal-evidence transaction (here: side-chain illegal
+// data naming one signer) against a producer that is active, inactive (with
+// or without a pending activation request), illegal or cancelled, before and
+// after the height from which illegal behaviour costs a penalty.
+func ZZ_C21_illegal() {
+	s := zzDposState()
+	s.ChainParams.DPoSConfiguration.DPoSV2IllegalPenalty = 20000000000
+	if nd.Bool("beforePenaltyHeight") {
+		s.ChainParams.CRConfiguration.ChangeCommitteeNewCRHeight = zzDH + 1
+		s.DPoSV2ActiveHeight = zzDH + 1
+	}
+	st := []ProducerState{Active, Inactive, Illegal, Canceled}[nd.Choose("state", 4)]
+	p := zzDposProducer(s, 0, st, DPoSV1, 0)
+	switch st {
+	case Inactive:
+		if nd.Bool("activationRequested") {
+			p.activateRequestHeight = zzDH - 2
+		}
+		p.inactiveSince = zzDH - 20
+	case Illegal:
+		p.illegalHeight = zzDH - 30
+		if nd.Bool("activationRequested") {
+			p.activateRequestHeight = zzDH - 2
+		}
+	case Canceled:
+		p.cancelHeight = zzDH - 50
+	}
+	tx := &zzStTx{typ: common2.IllegalSidechainEvidence, id: common.Uint256{0x21, 0x40},
+		pld: &payload.SidechainIllegalData{IllegalSigner: p.info.NodePublicKey}}
 	zzDposApplyAndRollback(s, []interfaces.Transaction{tx})
 }
